@@ -149,6 +149,26 @@ def _impl_slab(case):
         b2 = open(p2, 'rb').read()
         v['hex'] = b1.hex()
         v['rewrite_same'] = (b1 == b2)
+        # a horizontal window of the file as read (the first column dropped, the last row dropped), written again: the
+        # reference encoding of the windowed arrays
+        nx, ny = case['nx'], case['ny']
+        kw = {}
+        if nx >= 2:
+            kw['COL'] = slice(1, nx)
+        if ny >= 2:
+            kw['ROW'] = slice(0, ny - 1)
+        if kw:
+            p3 = p1 + '.window'
+            try:
+                with lib.pnc_warnings():
+                    pncgen(f.sliceDimensions(**kw), p3, format=S.FORMATS[case['fmt']][4], verbose=0)
+                d = np.array(case['data'], dtype='u8').reshape(len(case['flags']), -1, ny, nx)[
+                    :, :, kw.get('ROW', slice(None)), kw.get('COL', slice(None))]
+                wc = dict(case, nx=d.shape[3], ny=d.shape[2], data=d.reshape(d.shape[0], d.shape[1], -1).tolist())
+                v['window_same'] = (open(p3, 'rb').read() == S.encode(wc))
+            finally:
+                if os.path.exists(p3):
+                    os.remove(p3)
         return v
     except lib.HarnessError:
         raise
@@ -215,12 +235,22 @@ def impl(case):
             if os.path.exists(p2):
                 os.remove(p2)
             pncgen(f, p2, format='uamiv', verbose=0)
+            # a copy of the file as read has no end flags of its own: the writer derives them from the begin flags and the
+            # TSTEP attribute the reader set
+            p3 = p1 + '.copy'
+            try:
+                pncgen(f.copy(), p3, format='uamiv', verbose=0)
+                b3 = open(p3, 'rb').read()
+            finally:
+                if os.path.exists(p3):
+                    os.remove(p3)
         b2 = open(p2, 'rb').read()
         del f
         os.remove(p1)
         os.remove(p2)
         view['hex'] = b1.hex()
         view['rewrite_same'] = (b1 == b2)
+        view['copy_same'] = (b1 == b3)
         if b1 != b2:
             view['rewrite_diff_at'] = next((i for i, (x, y) in enumerate(zip(b1, b2)) if x != y), min(len(b1), len(b2)))
         return view
@@ -315,6 +345,8 @@ def _oracle_slab(case, res):
         return 'time flags %s read back, written %s' % (res.get('tflag'), ','.join(conv))
     if not res['rewrite_same']:
         return 're-writing the re-read file changed the bytes'
+    if res.get('window_same') is False:
+        return 'a horizontal window of the file as read (first column / last row dropped), written: not the encoding of the windowed arrays'
     return None
 
 
@@ -364,6 +396,9 @@ def oracle(case, res):
             return 'grid header word %d changed' % i
     if not res['rewrite_same']:
         return 're-writing the re-read file changed the bytes (first difference at byte %d)' % res['rewrite_diff_at']
+    if res.get('copy_same') is False and len(set((b[0] - a[0], b[1] - a[1]) for a, b in zip(case['tflag'], case['etflag']))) == 1 and \
+            all(e[1] != 240000 for e in case['etflag']):      # (hour 24 of the day that ends is a labelling only ETFLAG carries)
+        return 'writing a copy of the re-read file (no end flags of its own: they follow from the begin flags and TSTEP) changed the bytes'
     return None
 
 
